@@ -589,12 +589,30 @@ def check(pid, tier, seed):
                     notes.append("harness stream %s exited %d: %s" % (stream, rc, err[-300:]))
                 lines = cref_fill(lines)
                 mv = run_driver(lines)
+                if stream in ("compile", "c04"):
+                    # kept for the kernel-versus-extraction cross-check (lib/xcheck.py)
+                    with open(os.path.join(CACHE, stream + ".cases"), "w") as f:
+                        f.write("\n".join(lines) + "\n")
+                    with open(os.path.join(CACHE, stream + ".model"), "w") as f:
+                        f.write("\n".join("%s\t%s" % (m, v) for (m, v) in mv) + "\n")
                 for l, (m, v) in zip(lines, mv):
                     cmd, arg, impl = (l.split("\t") + ["", "", ""])[:3]
                     results.append({"cmd": cmd, "arg": arg, "impl": impl, "model": m, "verdict": v,
                                     "stream": stream + ("" if profile == "debug" else "@release")})
                 streams_info[stream + ("" if profile == "debug" else "@release")] = len(lines)
                 log("[%s] stream %s (%s): %d cases in %.1fs" % (pid, stream, profile, len(lines), time.time() - ts))
+
+    # 4b. kernel-versus-extraction cross-check: the Coq kernel re-evaluates a sample of the cases the
+    #     extracted model has just answered (the whole compiler chain, the decoder)
+    if ok_h and ok_d:
+        for st in ("compile", "c04"):
+            if st in cfg["streams"]:
+                with Lock("coq"):
+                    rc, xout = sh([sys.executable, os.path.join(ROOT, "lib", "xcheck.py"), st, "40"], timeout=1200)
+                notes.append(xout.strip().split("\n")[0][:200])
+                if rc != 0:
+                    proof["ok"] = False
+                    proof["problems"].append("kernel evaluation and the extracted model disagree on this run's %s cases: %s" % (st, xout[-400:]))
 
     fails = [r for r in results if is_fail(r)]
     mism = [r for r in results if is_mismatch(r) and not is_fail(r)]
